@@ -36,7 +36,8 @@ def case_st(draw):
 
     def req():
         return {'req': True, 'method': spell(draw(st.sampled_from(VERBS + ['HEAD', 'GET', 'TRACE'])), draw(st.sampled_from([0, 0, 0, 1, 2]))),
-                'path': draw(R.path_for(draw(st.sampled_from(asts)))), 'accept': draw(st.sampled_from([None, None, 'application/json', 'text/html', 'application/json, text/html;q=0.5']))}
+                'path': draw(R.path_for(draw(st.sampled_from(asts)))), 'accept': draw(st.sampled_from([None, None, 'application/json', 'text/html', 'application/json, text/html;q=0.5'])),
+                'override': draw(st.sampled_from([None, None, None, None, 'PUT', 'DELETE', 'PATCH', 'GET', 'HEAD', 'FOO']))}
     for _ in range(draw(st.integers(1, 10))):
         op = draw(st.sampled_from(['add', 'add', 'add', 'add_over', 'remove_method', 'rm_remove']))
         ms = draw(st.lists(st.sampled_from(VERBS), min_size=0 if draw(st.integers(0, 19)) == 0 else 1, max_size=3, unique=True))
@@ -63,6 +64,13 @@ def check_case(ctx, case):
     model = {}          # pattern key -> {'methods': {M: tag}, 'ast': first accepted ast, 'edited': bool}
     order = []          # accepted asts (for the reference matcher)
     tagno = [0]
+
+    def override_hook():
+        # the X-HTTP-Method-Override recipe: a before_request hook rewrites the verb (hooks run before routing)
+        ov = app.request.environ.get('HTTP_X_HTTP_METHOD_OVERRIDE')
+        if ov:
+            app.request.environ['REQUEST_METHOD'] = ov
+    app.add_hook('before_request', override_hook)
 
     def handler_for(tag):
         def h(**kw):
@@ -156,6 +164,10 @@ def _request(ctx, case, app, box, model, order, texts, rq, edits_seen):
     desc = {texts[[R.pattern_key(R.merge(a)) for a in case['asts']].index(k)]: dict(v['methods']) for k, v in model.items()}
     for rq in [rq]:
         path, method = rq['path'], rq['method']
+        sent_as = method
+        if rq.get('override'):
+            sent_as, method = 'POST', rq['override']             # sent as POST, to be dispatched as the verb named in the override header
+            ctx.count('verb_overridden_by_a_before_request_hook')
         try:
             path.encode('utf8')
         except UnicodeError:
@@ -184,7 +196,10 @@ def _request(ctx, case, app, box, model, order, texts, rq, edits_seen):
             raise CheckFailure(f'routes {desc}: {M} {path!r}: to_route gave {"handler " + str(end_point[0].handler()) if end_point else "error " + str(err[0])}, expected {want}')
         # ---- (b) through WSGI
         box.clear()
-        r = call_app(app, make_environ(method, path, headers=({'Accept': rq['accept']} if rq.get('accept') else None)))      # (the client may ask for a JSON error document)
+        hdrs = {'Accept': rq['accept']} if rq.get('accept') else {}
+        if rq.get('override'):
+            hdrs['X-HTTP-Method-Override'] = rq['override']
+        r = call_app(app, make_environ(sent_as, path, headers=hdrs or None))      # (the client may ask for a JSON error document)
         if r.escaped is not None:
             raise CheckFailure(f'{method} {path!r}: exception escaped {fmt_exc(r.escaped)}')
         if rq.get('accept'):
@@ -264,6 +279,14 @@ def run(ctx):
                         case = {'asts': [[['lit', '/r/'], ['w', 'x', None, None]]], 'choice': [], 'spell': 0, 'events': (hk + steps if hook_first else steps + hk) + reqs}
                         ctx.guarded(check_case, case)
         ctx.count('hooked_route_grid')
+        # requests sent as POST with a verb override header (a before_request hook rewrites REQUEST_METHOD) against every small verb set
+        for sub in (['POST'], ['POST', 'DELETE'], ['GET'], ['PUT', 'ANY'], ['DELETE', 'POST', 'GET']):
+            steps = [{'op': 'add', 'rule': 0, 'methods': [m], 'as_str': True} for m in sub]
+            reqs = [{'req': True, 'method': 'POST', 'path': p, 'override': ov} for ov in (None, 'PUT', 'DELETE', 'GET', 'HEAD', 'PATCH', 'delete') for p in ('/r/1', '/nope')]
+            ctx.guarded(check_case, {'asts': [[['lit', '/r/'], ['w', 'x', None, None]]], 'choice': [], 'spell': 0, 'events': steps + reqs})
+        ctx.count('verb_override_grid')
+        for reg, rm, req in ((['GET', 'ANY'], ['GET'], 'GET'), (['GET'], ['GET'], 'GET'), (['GET', 'POST'], ['POST'], 'POST'), (['HEAD', 'GET'], ['HEAD'], 'HEAD'), (['ANY'], ['ANY'], 'PUT')):
+            ctx.guarded(check_concurrent_overwrite, {'registered': reg, 'overwrite': rm, 'request': req, 'remove': True})
         for reg, over, req in ((['GET'], ['GET'], 'GET'), (['GET', 'POST'], ['POST'], 'POST'), (['GET', 'ANY'], ['GET'], 'GET'), (['GET'], ['GET', 'PUT'], 'HEAD'),
                                (['ANY'], ['ANY'], 'DELETE')):
             ctx.guarded(check_concurrent_overwrite, {'registered': reg, 'overwrite': over, 'request': req})
@@ -296,6 +319,9 @@ def check_concurrent_overwrite(ctx, case):
         res = {}
 
         def registrar():
+            if case.get('remove'):
+                app.router[{'/r/<x>'}].remove_method(list(over))          # the verb is taken away while a request for it is being dispatched
+                return
             app.route('/r/<x>', method=list(over), callback=lambda **kw: box.__setitem__('ran', 'new') or 'new', overwrite=True)
 
         def requester():
@@ -309,13 +335,13 @@ def check_concurrent_overwrite(ctx, case):
         M = req.upper()
         cands = [M] + (['GET'] if M == 'HEAD' else []) + ['ANY']
         before = next((c for c in cands if c in verbs), None)
-        after = next((c for c in cands if c in set(verbs) | set(over)), None)
+        after = next((c for c in cands if c in ((set(verbs) - set(over)) if case.get('remove') else (set(verbs) | set(over)))), None)
         ok_bodies = set()
         if before:
             ok_bodies.add('new' if False else 'old-' + before)
         if after:
-            ok_bodies.add('new' if after in over else 'old-' + after)
-        if before is None:
+            ok_bodies.add('new' if (after in over and not case.get('remove')) else 'old-' + after)
+        if before is None or (case.get('remove') and after is None):
             ok_bodies.add('405')
         got = box.get('ran') if r.code == 200 else str(r.code)
         if got not in ok_bodies:
@@ -327,7 +353,11 @@ def check_concurrent_overwrite(ctx, case):
     y0 = run([[0, BIG]])[0]
     for k in range(0, y0 + 1):
         run([[0, k], [1, BIG], [0, BIG]])
-    ctx.count('concurrent_overwrite_schedules', y0 + 1)
+    # ... and the request pre-empted at every step while the edit runs to completion
+    y1 = run([[1, BIG]])[1]
+    for k in range(0, y1 + 1):
+        run([[1, k], [0, BIG], [1, BIG]])
+    ctx.count('concurrent_overwrite_schedules', y0 + y1 + 2)
 
 
 def check_concurrent_edits(ctx, case):
